@@ -9,6 +9,7 @@ RULE = ('random operator-word-free tables and trees over their keys and over mul
         'pairs, same-operator nesting), taken as built and after simplify / dedup / combine_expressions; Spec on the real code: '
         'parse(str(e)) has the structure, operand order and symbols of e and renders to the same text; the readable rendering '
         're-parses to e; render(template) equals the default rendering with every key replaced by the template applied to it. '
+        'The renderings are asked in varying order on the same object (default first; readable first; renderings of a derived expression first). '
         'Correspondence: the three renderings with the model. non-trivial = not a single symbol; distinct by tree')
 ASSUMPTIONS = ['table names and unknown keys contain no operator words; templates are format strings over symbol.key']
 
@@ -30,7 +31,8 @@ class Prop(BaseProp):
                 return [t[0], t[1], flags.get(t[1], False), t[3], flags.get(t[3], False)]
             return [t[0]] + [fix(x) for x in t[1:]]
         tree = fix(gen.gen_tree(rng, pool, depth=rng.randint(1, 4), maxar=4))
-        return {'table': table, 'tree': tree, 'via': rng.choice(['asis', 'asis', 'simplify', 'dedup', 'combine']), 'tmpl': rng.randrange(len(TEMPLATES))}
+        return {'table': table, 'tree': tree, 'via': rng.choice(['asis', 'asis', 'simplify', 'dedup', 'combine']), 'tmpl': rng.randrange(len(TEMPLATES)),
+                'order': rng.choice([0, 0, 1, 2])}
 
     def eval_case(self, drv, case):
         table, tree = case['table'], case['tree']
@@ -44,8 +46,19 @@ class Prop(BaseProp):
         elif via == 'combine':
             e = impl.le.combine_expressions([e, e.args[-1] if e.args else e, e], rng_op(case), licensing=lic)
         t0 = impl.tree_c(e)
+        pre, post = TEMPLATES[case['tmpl']]
+        tmpl = pre + '{symbol.key}' + post
+        order = case.get('order', 0)
+        if order == 1:          # the readable renderings first, on the same object
+            e.render_as_readable()
+            e.render_as_readable(tmpl)
+        elif order == 2:        # renderings of an expression derived from it first
+            d = lic.dedup(e)
+            d.render_as_readable(tmpl)
+            d.render_as_readable()
+            str(d)
         text = e.render()
-        tags = ['via=' + via]
+        tags = ['via=' + via, 'order=%d' % order]
         ip = impl.parse_c(lic, text)
         if ip != [T('ok'), t0]:
             return Verdict('spec', case, 're-parse of the default rendering', impl=[text, ip], model=t0, tags=tags)
@@ -55,8 +68,7 @@ class Prop(BaseProp):
         ir = impl.parse_c(lic, rd)
         if ir != [T('ok'), t0]:
             return Verdict('spec', case, 're-parse of the readable rendering', impl=[rd, ir], model=t0, tags=tags)
-        pre, post = TEMPLATES[case['tmpl']]
-        tm = e.render(pre + '{symbol.key}' + post)
+        tm = e.render(tmpl)
         # default rendering with every key replaced: rebuild from the structure
         want_t, want_d, want_r = drv.call_many([(T('rendert'), pre, post, t0), (T('render'), t0), (T('readable'), t0)])
         if tm != want_t:
@@ -65,6 +77,9 @@ class Prop(BaseProp):
             return Verdict('diverge', case, 'render', impl=text, model=want_d, tags=tags)
         if rd != want_r:
             return Verdict('diverge', case, 'render_as_readable', impl=rd, model=want_r, tags=tags)
+        again = e.render()
+        if again != text and (impl.parse_c(lic, again) != [T('ok'), t0] or str(lic.parse(again)) != again):
+            return Verdict('spec', case, 'the default rendering after the other renderings is not a fixed point', impl=[text, again], tags=tags)
         if str(e) != text:
             return Verdict('diverge', case, 'str() differs from render()', impl=[str(e), text], tags=tags)
         return Verdict('ok', case, impl=text, nontrivial=t0[0] in ('and', 'or'), key=[table, t0], tags=tags)
